@@ -160,3 +160,11 @@ func verifCoverIf(label string, cond bool) {
 		verifCur.Covers = append(verifCur.Covers, label)
 	}
 }
+
+// vByte: s[i] as an int, 0 when i is out of range (never panics).
+func vByte(s string, i int) int {
+	if i < 0 || i >= len(s) {
+		return 0
+	}
+	return int(s[i])
+}
